@@ -3,4 +3,5 @@ pub mod crash;
 pub mod db;
 pub mod evbuf;
 pub mod hist;
+pub mod stress;
 pub mod util;
